@@ -13,3 +13,26 @@ package metrics
 //@   site call mb.initNewDpWal #1:
 //@     assert [new-file-gets-new-index] mb.dpWalState.currentWALIndex == old(mb.dpWalState.currentWALIndex) + 1
 //@ end
+
+// C10 (recovery yields every completed append): RecoverWALData replays the WAL
+// files of one block group into a fresh block, deletes each file after reading
+// it, and flushes the block.  Every datapoint that was re-encoded into the
+// block must be flushed before the group is left, whichever file of the group
+// it came from (a group's last file may be empty or torn): the ghost counter
+// walPending counts re-encoded datapoints that are not yet flushed.
+//@ ghostdecl walPending int
+//@ func RecoverWALData
+//@   props C10
+//@   ghostinit ghost(0, "walPending") == 0
+//@   loop 1:
+//@     invariant [group-left-only-when-flushed] ghost(0, "walPending") == 0
+//@   loop 2:
+//@     invariant [flag-tracks-replayed-datapoints] ghost(0, "walPending") >= 0 && implies(ghost(0, "walPending") > 0, !isWalFileEmpty)
+//@   loop 3:
+//@     invariant [flag-tracks-replayed-datapoints] ghost(0, "walPending") >= 0 && implies(ghost(0, "walPending") > 0, !isWalFileEmpty)
+//@   site callret mBlock.encodeDatapoint #1:
+//@     ghostset ghost(0, "walPending") = ite(result == nil && ghost(0, "walPending") < 1000000000, ghost(0, "walPending") + 1, ghost(0, "walPending"))
+//@   site callret mBlock.flushBlock #1:
+//@     ghostset ghost(0, "walPending") = 0
+//@   ensures [replayed-datapoints-are-flushed] ghost(0, "walPending") == 0
+//@ end
